@@ -1,4 +1,4 @@
-package main
+package racx
 
 // The harness's stub codec: a Long Codec ("verifID") whose compressed form is
 //
@@ -20,9 +20,9 @@ import (
 	"github.com/google/wuffs/lib/rac"
 )
 
-const stubRacCodec = rac.Codec(0x8000000000000000 | stubCodecID)
+const StubRacCodec = rac.Codec(0x8000000000000000 | StubCodecID)
 
-func wrapDict(raw []byte) []byte {
+func WrapDict(raw []byte) []byte {
 	w := make([]byte, len(raw)+8)
 	w[0], w[1], w[2], w[3] = byte(len(raw)), byte(len(raw)>>8), byte(len(raw)>>16), byte(len(raw)>>24)
 	copy(w[4:], raw)
@@ -43,27 +43,27 @@ func stubXor(data []byte, sec, ter []byte) {
 	}
 }
 
-// stubDecode decodes one leaf given the whole file and its three CRanges.
-func stubDecode(file []byte, p, s, t specRange) ([]byte, error) {
-	if p.size() < 4 {
+// StubDecode decodes one leaf given the whole file and its three CRanges.
+func StubDecode(file []byte, p, s, t SpecRange) ([]byte, error) {
+	if p.Size() < 4 {
 		return nil, errors.New("primary range shorter than the header")
 	}
 	b := file[p.Lo:p.Hi]
 	h := uint32(b[0]) | uint32(b[1])<<8 | uint32(b[2])<<16 | uint32(b[3])<<24
 	n := int64(h & 0x3FFFFFFF)
-	if 4+n > p.size() {
+	if 4+n > p.Size() {
 		return nil, errors.New("payload longer than the primary range")
 	}
 	out := append([]byte(nil), b[4:4+n]...)
 	var sec, ter []byte
 	var err error
 	if h&(1<<30) != 0 {
-		if sec, err = loadSpecDict(file, s); err != nil || len(sec) == 0 {
+		if sec, err = LoadSpecDict(file, s); err != nil || len(sec) == 0 {
 			return nil, errors.New("secondary resource missing or damaged")
 		}
 	}
 	if h&(1<<31) != 0 {
-		if ter, err = loadSpecDict(file, t); err != nil || len(ter) == 0 {
+		if ter, err = LoadSpecDict(file, t); err != nil || len(ter) == 0 {
 			return nil, errors.New("tertiary resource missing or damaged")
 		}
 	}
@@ -71,22 +71,22 @@ func stubDecode(file []byte, p, s, t specRange) ([]byte, error) {
 	return out, nil
 }
 
-type stubWriter struct {
+type StubWriter struct {
 	buf []byte
-	// useTertiary lets a run enable the tertiary slot.
-	useTertiary bool
-	compressErrAt int // fail the n-th Compress call (1-based); 0 = never
+	// UseTertiary lets a run enable the tertiary slot.
+	UseTertiary   bool
+	CompressErrAt int // fail the n-th Compress call (1-based); 0 = never
 	calls         int
 }
 
-func (w *stubWriter) Close() error            { return nil }
-func (w *stubWriter) Clone() rac.CodecWriter  { return &stubWriter{useTertiary: w.useTertiary} }
-func (w *stubWriter) CanCut() bool            { return true }
-func (w *stubWriter) WrapResource(raw []byte) ([]byte, error) { return wrapDict(raw), nil }
+func (w *StubWriter) Close() error                            { return nil }
+func (w *StubWriter) Clone() rac.CodecWriter                  { return &StubWriter{UseTertiary: w.UseTertiary} }
+func (w *StubWriter) CanCut() bool                            { return true }
+func (w *StubWriter) WrapResource(raw []byte) ([]byte, error) { return WrapDict(raw), nil }
 
-func (w *stubWriter) Compress(p []byte, q []byte, res [][]byte) (rac.Codec, []byte, int, int, error) {
+func (w *StubWriter) Compress(p []byte, q []byte, res [][]byte) (rac.Codec, []byte, int, int, error) {
 	w.calls++
-	if w.compressErrAt != 0 && w.calls == w.compressErrAt {
+	if w.CompressErrAt != 0 && w.calls == w.CompressErrAt {
 		return 0, nil, 0, 0, errors.New("stub: injected Compress failure")
 	}
 	n := len(p) + len(q)
@@ -103,7 +103,7 @@ func (w *stubWriter) Compress(p []byte, q []byte, res [][]byte) (rac.Codec, []by
 			sec = k
 			h |= 1 << 30
 		}
-		if w.useTertiary {
+		if w.UseTertiary {
 			if k := int((c >> 8) % uint32(len(res)+1)); k < len(res) && len(res[k]) > 0 {
 				ter = k
 				h |= 1 << 31
@@ -119,11 +119,11 @@ func (w *stubWriter) Compress(p []byte, q []byte, res [][]byte) (rac.Codec, []by
 		stubXor(w.buf[4:], s, t)
 	}
 	w.buf[0], w.buf[1], w.buf[2], w.buf[3] = byte(h), byte(h>>8), byte(h>>16), byte(h>>24)
-	return stubRacCodec, w.buf, sec, ter, nil
+	return StubRacCodec, w.buf, sec, ter, nil
 }
 
-func (w *stubWriter) Cut(codec rac.Codec, encoded []byte, maxEncodedLen int) (int, int, error) {
-	if codec != stubRacCodec || len(encoded) < 4 {
+func (w *StubWriter) Cut(codec rac.Codec, encoded []byte, maxEncodedLen int) (int, int, error) {
+	if codec != StubRacCodec || len(encoded) < 4 {
 		return 0, 0, errors.New("stub: bad Cut input")
 	}
 	if maxEncodedLen < 4 {
@@ -139,11 +139,11 @@ func (w *stubWriter) Cut(codec rac.Codec, encoded []byte, maxEncodedLen int) (in
 	return 4 + n, n, nil
 }
 
-type stubReader struct{}
+type StubReader struct{}
 
-func (r *stubReader) Close() error               { return nil }
-func (r *stubReader) Accepts(c rac.Codec) bool   { return c == stubRacCodec }
-func (r *stubReader) Clone() rac.CodecReader     { return &stubReader{} }
+func (r *StubReader) Close() error             { return nil }
+func (r *StubReader) Accepts(c rac.Codec) bool { return c == StubRacCodec }
+func (r *StubReader) Clone() rac.CodecReader   { return &StubReader{} }
 
 func readRange(rs io.ReadSeeker, r rac.Range) ([]byte, error) {
 	if r[1] < r[0] || r.Size() > 1<<24 {
@@ -160,7 +160,7 @@ func readRange(rs io.ReadSeeker, r rac.Range) ([]byte, error) {
 	return b[:n], err
 }
 
-func (r *stubReader) MakeDecompressor(rs io.ReadSeeker, c rac.Chunk) (io.Reader, error) {
+func (r *StubReader) MakeDecompressor(rs io.ReadSeeker, c rac.Chunk) (io.Reader, error) {
 	// Assemble a private miniature "file" holding the three ranges and decode
 	// it with the same function the spec-side decoder uses.
 	p, err := readRange(rs, c.CPrimary)
@@ -168,14 +168,14 @@ func (r *stubReader) MakeDecompressor(rs io.ReadSeeker, c rac.Chunk) (io.Reader,
 		return nil, err
 	}
 	file := append([]byte(nil), p...)
-	pr := specRange{0, int64(len(p))}
-	sr, tr := specRange{}, specRange{}
+	pr := SpecRange{0, int64(len(p))}
+	sr, tr := SpecRange{}, SpecRange{}
 	if !c.CSecondary.Empty() {
 		s, err := readRange(rs, c.CSecondary)
 		if err != nil {
 			return nil, err
 		}
-		sr = specRange{int64(len(file)), int64(len(file) + len(s))}
+		sr = SpecRange{int64(len(file)), int64(len(file) + len(s))}
 		file = append(file, s...)
 	}
 	if !c.CTertiary.Empty() {
@@ -183,10 +183,10 @@ func (r *stubReader) MakeDecompressor(rs io.ReadSeeker, c rac.Chunk) (io.Reader,
 		if err != nil {
 			return nil, err
 		}
-		tr = specRange{int64(len(file)), int64(len(file) + len(t))}
+		tr = SpecRange{int64(len(file)), int64(len(file) + len(t))}
 		file = append(file, t...)
 	}
-	out, err := stubDecode(file, pr, sr, tr)
+	out, err := StubDecode(file, pr, sr, tr)
 	if err != nil {
 		return nil, err
 	}
